@@ -44,8 +44,10 @@ class GroupSum(torch.nn.Module):
         #     )
         # else:
         #     raise ValueError(f"Unsupported input shape: {x.shape}")
+        # the count is accumulated in float32 at least: bfloat16 / float16 cannot represent counts above 256 / 2048
+        acc = torch.float32 if x.dtype in (torch.float16, torch.bfloat16) else None
         return (
-            (x.reshape(*x.shape[:-1], self.k, x.shape[-1] // self.k).sum(-1) + self.beta) / self.tau
+            (x.reshape(*x.shape[:-1], self.k, x.shape[-1] // self.k).sum(-1, dtype=acc) + self.beta) / self.tau
         )
 
     def extra_repr(self):
